@@ -7,19 +7,29 @@ points where more than one thread was enabled.
 """
 from __future__ import annotations
 
+import queue
 import threading
 
 from vf import universe as U
 
 
+BLOCK_S = 0.25  # a released thread that neither yields nor finishes within this time is treated as blocked on a lock held by a parked thread
+
+
 class Schedule:
+    """One run.  The controller releases one parked thread at a time and waits for it to report (park at the next yield point, or
+    finish).  A thread that does not report within BLOCK_S is *blocked* - typically on a real lock (e.g. the Python-level registry
+    lock) whose holder is parked at a yield point; the controller then lets another parked thread run, exactly as the operating
+    system would, and the blocked thread reports whenever it gets through.  If nothing is parked and nothing reports, the run is
+    stuck for real and the journal watchdog of the parent process decides."""
+
     def __init__(self, ops, choices, max_yields=6, step_timeout=None):
         self.ops = ops
         self.n = len(ops)
         self.choices = list(choices)
         self.max_yields = max_yields
         self.go = [threading.Semaphore(0) for _ in ops]
-        self.ctrl = threading.Semaphore(0)
+        self.reports = queue.Queue()
         self.done = [False] * self.n
         self.results = [None] * self.n
         self.yields = [0] * self.n
@@ -28,10 +38,11 @@ class Schedule:
         self.taken = []
         self.tls = threading.local()
         self.sites = {}
+        self.blocked_events = 0
 
     def _park(self, i, label):
         self.trace.append((i, label))
-        self.ctrl.release()
+        self.reports.put(i)
         self.go[i].acquire()
 
     def hook(self, site, obj):
@@ -54,7 +65,7 @@ class Schedule:
         self.results[i] = res
         self.done[i] = True
         self.tls.idx = None
-        self.ctrl.release()
+        self.reports.put(i)
 
     def run(self):
         threads = [threading.Thread(target=self._body, args=(i,), daemon=True) for i in range(self.n)]
@@ -64,22 +75,36 @@ class Schedule:
             for t in threads:
                 t.start()
             for _ in threads:
-                self.ctrl.acquire()
+                self.reports.get()
             step = 0
+            inflight, blocked = set(), set()
             while not all(self.done):
-                enabled = [i for i in range(self.n) if not self.done[i]]
-                if len(enabled) > 1:
-                    c = self.choices[step] if step < len(self.choices) else 0
-                    if c >= len(enabled):
-                        c = len(enabled) - 1
-                    self.enabled_log.append(len(enabled))
-                    self.taken.append(c)
-                    step += 1
-                    i = enabled[c]
-                else:
-                    i = enabled[0]
-                self.go[i].release()
-                self.ctrl.acquire()
+                parked = [i for i in range(self.n) if not self.done[i] and i not in inflight]
+                if parked and not (inflight - blocked):
+                    if len(parked) > 1:
+                        c = self.choices[step] if step < len(self.choices) else 0
+                        if c >= len(parked):
+                            c = len(parked) - 1
+                        self.enabled_log.append(len(parked))
+                        self.taken.append(c)
+                        step += 1
+                        i = parked[c]
+                    else:
+                        i = parked[0]
+                    inflight.add(i)
+                    self.go[i].release()
+                    parked = [p for p in parked if p != i]
+                try:
+                    # wait for somebody to report; give up on the running thread only when another one could run instead
+                    j = self.reports.get(timeout=BLOCK_S if (parked and (inflight - blocked)) else None)
+                except queue.Empty:
+                    for b in inflight - blocked:
+                        self.trace.append((b, 'blocked'))
+                        self.blocked_events += 1
+                    blocked |= inflight
+                    continue
+                inflight.discard(j)
+                blocked.discard(j)
             for t in threads:
                 t.join()
         finally:
